@@ -24,7 +24,7 @@ type c02Arg struct {
 
 const c02Now = 100
 
-var c02Variants = []string{"val", "oth", "resig", "lim", "lim1", "neg", "max63"}
+var c02Variants = []string{"val", "oth", "resig", "lim", "lim1", "neg", "neg2", "max63"}
 
 type c02Dev struct {
 	name  string
@@ -61,6 +61,8 @@ func c02Datagram(dev c02Dev, slot int, variant string) []byte {
 		p = dev.limit + 1
 	case "neg":
 		p = 1<<63 + 5
+	case "neg2":
+		p = 1<<64 - 300
 	case "max63":
 		p = 1<<63 - 1
 	}
@@ -226,7 +228,7 @@ func init() {
 		ops := c02Ops(arg)
 		p := pool.New(0)
 		st := bfsPool(run, p, "c02", arg, depth, 0, func([]string) []string { return ops })
-		finishBfs(run, st, "BFS to closure over histories of valid reports (7 variants: value, other value, same content re-signed with another nonce, limit, limit+1, negative, 2^63-1) for devices A (capacity 1000) and B (capacity 7) over the listed slots; state = per slot (empty | first report variant | banned); every transition = fresh real server + replay + one report, compared with the reference model, the set-based rule and all public observables")
+		finishBfs(run, st, "BFS to closure over histories of valid reports (8 variants: value, other value, same content re-signed with another nonce, limit, limit+1, two negatives, 2^63-1) for devices A (capacity 1000) and B (capacity 7) over the listed slots; state = per slot (empty | first report variant | banned); every transition = fresh real server + replay + one report, compared with the reference model, the set-based rule and all public observables")
 		run.Coverage["slots"] = arg.Slots
 		return exitCode(run, st)
 	}
